@@ -72,6 +72,15 @@ func corpusFiles(mode string) []FileDef {
 			explicitEnum("E0", uByName("int16"), 0, c15...),
 			explicitEnum("E1", uByName("uint8"), 1, c16...),
 		}})
+		// names that differ only by case: refused under -caseInsensitive, two constants otherwise
+		for _, withCI := range []bool{true, false} {
+			o := defaultOpts()
+			o.CI = withCI
+			e := explicitEnum("E0", uByName("uint8"), 0,
+				Const{Name: "Red", Val: "1"}, Const{Name: "RED", Val: "2"}, Const{Name: "Blue", Val: "3"})
+			e.Shape = append(e.Shape, "names_differ_only_by_case")
+			out = append(out, FileDef{Kind: "corpus", Opts: o, Enums: []EnumDef{e}})
+		}
 	case "c05":
 		out = append(out, corpusC05()...)
 	case "c12":
@@ -97,7 +106,71 @@ func randomFile(r *rand.Rand, mode string) FileDef {
 		fd.Enums = append(fd.Enums, genEnum(r, nm, fmt.Sprintf("E%d", i), &blk))
 	}
 	shareBlocks(r, &fd)
+	if r.IntN(12) == 0 {
+		caseCollision(r, &fd)
+	}
 	return fd
+}
+
+// caseCollision (near-miss stream): gives one enum a further constant whose name differs from
+// an existing one only by case.  Under -caseInsensitive the generator must refuse the definition;
+// without it the two names are simply two constants.
+func caseCollision(r *rand.Rand, fd *FileDef) {
+	e := &fd.Enums[r.IntN(len(fd.Enums))]
+	taken := map[string]bool{}
+	for _, en := range fd.Enums {
+		taken[en.Type] = true
+		for _, c := range en.Consts {
+			taken[c.Name] = true
+		}
+	}
+	for tries := 0; tries < 20; tries++ {
+		t := e.Consts[r.IntN(len(e.Consts))]
+		variant := strings.ToUpper(t.Name)
+		if r.IntN(2) == 0 || variant == t.Name {
+			variant = swapCase(t.Name)
+		}
+		if variant == t.Name || taken[variant] || reserved[variant] || reserved[strings.ToLower(variant)] && variant == strings.ToLower(variant) {
+			continue
+		}
+		c := Const{Name: variant, Val: t.Val, Form: "alias", Rhs: t.Name, Block: e.Consts[len(e.Consts)-1].Block}
+		if r.IntN(2) == 0 {
+			// a different value when one is free
+			u := underOf(e)
+			v := randInRange(r, u)
+			used := false
+			for _, k := range e.Consts {
+				if k.Val == v.String() {
+					used = true
+				}
+			}
+			if !used {
+				c.Val, c.Form, c.Rhs = v.String(), "explicit", v.String()
+			}
+		}
+		last := e.Consts[len(e.Consts)-1]
+		if last.Form == "iota" || last.Form == "implicit" || last.Skip > 0 {
+			// keep iota runs intact: open a block of its own
+			maxB := 0
+			for _, en := range fd.Enums {
+				for _, k := range en.Consts {
+					if k.Block > maxB {
+						maxB = k.Block
+					}
+				}
+			}
+			c.Block = maxB + 1
+		}
+		e.Consts = append(e.Consts, c)
+		e.Shape = append(e.Shape, "names_differ_only_by_case")
+		sort.Strings(e.Shape)
+		fd.Opts.CI = r.IntN(4) > 0
+		if fd.Opts.CI {
+			// the refusal concerns the whole CLI run: keep the file to this one enum
+			fd.Enums = []EnumDef{*e}
+		}
+		return
+	}
 }
 
 // shareBlocks sometimes writes a block of a later enum (one without iota forms) into a block of
